@@ -53,7 +53,7 @@ def run(ck: Check) -> None:
     ck.note(f"{n_for} for statements, {n_while} while loops")
     ck.floor("W0", 120)
     ck.floor("WHILE", 18)
-    ck.floor("REC", 3)
+    ck.floor("REC", 1)       # recursion may legitimately be replaced by explicit stacks; at least one cycle must still be seen
 
 
 # ------------------------------------------------------------------------------------------ helpers
@@ -152,7 +152,9 @@ def w0(ck: Check, fm: FuncModel, loop: ast.For) -> None:
                 probs.append("iter(callable, sentinel) is not bounded")
     snapshot = isinstance(it, ast.Call) and callee_name(it) in ("list", "tuple", "sorted", "copy", "set", "frozenset",
                                                                  "reversed", "enumerate", "zip", "range")
-    if not snapshot or callee_name(it) in ("enumerate", "zip", "reversed"):
+    if isinstance(it, ast.Subscript) and isinstance(it.slice, ast.Slice):
+        snapshot = True         # a slice is a new list
+    if not snapshot or (isinstance(it, ast.Call) and callee_name(it) in ("enumerate", "zip", "reversed")):
         bases = {x.id for x in ast.walk(it) if isinstance(x, ast.Name)}
         for n in _nodes_in(fm, loop):
             for b in bases:
@@ -169,7 +171,7 @@ def w0(ck: Check, fm: FuncModel, loop: ast.For) -> None:
 def while_loop(ck: Check, fm: FuncModel, loop: ast.While) -> None:
     attempts: list[tuple[str, list[str]]] = []
     for name, rec in (("shrinking container", rec_shrink), ("level worklist", rec_level), ("stack worklist", rec_stack),
-                      ("queue worklist", rec_queue), ("counter", rec_counter),
+                      ("queue worklist", rec_queue), ("index chasing a list", rec_chase), ("counter", rec_counter),
                       ("flag-controlled fixpoint", rec_flag), ("geometric budget", rec_geom), ("retry with growing key", rec_retry)):
         res = rec(ck, fm, loop)
         if res is None:
@@ -755,6 +757,57 @@ def rec_queue(ck, fm: FuncModel, loop):
         if first is None:
             first = why
     return False, "; ".join((first or [])[:3])
+
+
+def rec_chase(ck, fm: FuncModel, loop):
+    """while i < len(Q): e = len(Q); ... Q.append(y) ...; i = e   -- a queue kept as one growing list: the index jumps to
+    the old end, so the loop goes on only while the list has grown; every push is justified like a push into a queue
+    (seen set / expanded guard / descent), nothing is ever taken out."""
+    t = loop.test
+    if not (isinstance(t, ast.Compare) and len(t.ops) == 1 and isinstance(t.ops[0], (ast.Lt, ast.NotEq)) and isinstance(t.left, ast.Name)
+            and isinstance(t.comparators[0], ast.Call) and callee_name(t.comparators[0]) == "len" and t.comparators[0].args
+            and isinstance(t.comparators[0].args[0], ast.Name)):
+        return None
+    I, Q = t.left.id, t.comparators[0].args[0].id
+    nodes = _nodes_in(fm, loop)
+    ass = _assigns(fm, loop, I)
+    if not ass or _assigns(fm, loop, Q):
+        return None
+    if any(_calls_on(n, Q, SHRINK | {"insert", "sort", "reverse"}) for n in nodes):
+        return None
+    # every assignment of the index: the length of the list taken at the start of this round
+    first = loop.body[0] if loop.body else None
+    snap = first.targets[0].id if isinstance(first, ast.Assign) and len(first.targets) == 1 and isinstance(first.targets[0], ast.Name) \
+        and isinstance(first.value, ast.Call) and callee_name(first.value) == "len" and first.value.args \
+        and text(first.value.args[0]) == Q else None
+    for a in ass:
+        v = a.ast.value if a.kind == "stmt" and isinstance(a.ast, ast.Assign) else None
+        ok = (snap is not None and isinstance(v, ast.Name) and v.id == snap and len(_assigns(fm, loop, snap)) == 1)
+        if not ok:
+            return None
+    hdr = fm.cfg.loop_header[loop]
+    tb = _tbranch(fm, loop)
+    if hdr.id in _within(fm, loop, tb, {a.id for a in ass}):
+        return False, f"a path reaches the next round without moving `{I}` to the end of the part already handled"
+    pushes = [(n, c.args[0] if c.args else None) for n in nodes for c in _calls_on(n, Q, {"append", "add"})]
+    if any(_calls_on(n, Q, {"extend", "update"}) for n in nodes):
+        return None
+    # the per-element loop: `for x in Q[i:e]`
+    inners = [l for l in fm.cfg.loop_nodes if isinstance(l, ast.For) and l is not loop and fm.cfg.loop_header[l].id in _loop_ids(fm, loop)
+              and isinstance(l.iter, ast.Subscript) and isinstance(l.iter.value, ast.Name) and l.iter.value.id == Q]
+    why, kinds = [], set()
+    for n, e in pushes:
+        inner = next((l for l in inners if n.id in _loop_ids(fm, l)), None)
+        cur = inner.target.id if inner is not None and isinstance(inner.target, ast.Name) else None
+        j = _justify_push(ck, fm, loop, inner, cur, n, e, "elem")
+        if j[0]:
+            kinds.add(j[1])
+        else:
+            why.append(f"line {n.lineno}: pushing `{text(e)[:40] if e is not None else '?'}` -- {j[1]}")
+    if why:
+        return False, "; ".join(why[:3])
+    return True, (f"`{I}` jumps to the former end of `{Q}` each round; every push justified by {', '.join(sorted(kinds)) or 'nothing pushed'}: "
+                  f"the list stops growing")
 
 
 # ---- flag-controlled fixpoints -------------------------------------------------------------------
